@@ -561,5 +561,26 @@ def main():
     return 2
 
 
+def _main_deep():
+    """Observations of deeply nested inputs (C14 recurses 150 levels, each level several sexp levels) are
+    parsed and compared by recursive Python functions: run everything in a thread with a large stack and a
+    high recursion limit, so that the depth of a case never depends on the interpreter's defaults."""
+    import threading
+    sys.setrecursionlimit(1000000)
+    threading.stack_size(1024 * 1024 * 1024)
+    box = []
+
+    def body():
+        try:
+            box.append(main())
+        except SystemExit as e:
+            box.append(e.code if isinstance(e.code, int) else 1)
+
+    t = threading.Thread(target=body)
+    t.start()
+    t.join()
+    return box[0] if box else 1
+
+
 if __name__ == "__main__":
-    sys.exit(main())
+    sys.exit(_main_deep())
